@@ -429,6 +429,16 @@ func TestCheck(t *testing.T) {
 		judge(r, t, sc)
 		return
 	}
+	var bt burstT
+	if mon.ReplayCase(&bt) && bt.Burst {
+		judgeBurst(r, t, bt)
+		return
+	}
+	for i, b := range burstGrid() {
+		if r.Mine(i) {
+			judgeBurst(r, t, b)
+		}
+	}
 	for i, wf := range wfailGrid() {
 		if r.Mine(i) {
 			judgeWFail(r, t, wf)
